@@ -49,10 +49,22 @@ def make_classes():
         def __init__(self, y: int) -> None:
             self.y = y
 
+    class S(A1):
+        def __init__(self, x: int, z: int = 0) -> None:
+            self.x = x
+            self.z = z
+    S1 = S
+
+    class S(A2):    # noqa: same name, other hierarchy
+        def __init__(self, x: str, z: int = 0) -> None:
+            self.x = x
+            self.z = z
+    S2 = S
+
     class E(enum.Enum):
         r = 1
         g = 2
-    return {'A1': A1, 'A2': A2, 'B': B, 'E': E}
+    return {'A1': A1, 'A2': A2, 'B': B, 'E': E, 'S1': S1, 'S2': S2}
 
 
 LOAD_ARGS = {'x1': 'x: 1\n', 'xabc': 'x: abc\n', 'tagA': '!A {x: 1}\n',
@@ -213,7 +225,8 @@ def check_function_tables(fn, kind, cs, spec_own, cl):
     import yatiml.loader
     import yatiml.dumper
     errs = []
-    names = {'A1': 'A', 'A2': 'A', 'B': 'B', 'E': 'E', '_AnyYAML': '_AnyYAML'}
+    names = {'A1': 'A', 'A2': 'A', 'B': 'B', 'E': 'E', 'S1': 'S', 'S2': 'S',
+             '_AnyYAML': '_AnyYAML'}
     cl = dict(cl)
     cl['_AnyYAML'] = yatiml.loader._AnyYAML
     added_spec = set(spec_own['added']) if isinstance(spec_own['added'],
@@ -390,8 +403,32 @@ def run(tier, replay=None):
     rnd = random.Random(SEED)
     rnd.shuffle(cases)
     limit = 2000 if tier == 'quick' else 60000
+    names = {'A1': 'A', 'A2': 'A', 'B': 'B', 'E': 'E', 'S1': 'S', 'S2': 'S'}
+
+    def score(c):
+        """prefer histories in which functions over same-named but different
+        classes are both created and used, and failing calls precede others"""
+        sc = 0
+        created = []
+        called = set()
+        for h in c['hist']:
+            cs = tuple(h['classes']) if isinstance(h['classes'], list) else ()
+            if h['op'] == 'create':
+                for ocs, okind in created:
+                    if (okind == h['kind'] and ocs != cs and
+                            {names[x] for x in ocs} & {names[x] for x in cs}):
+                        sc += 5
+                created.append((cs, h['kind']))
+            elif h['op'] == 'call':
+                if called and (h['f'] not in called):
+                    sc += 3
+                called.add(h['f'])
+                if h['arg'] in ('bad', 'xabc'):
+                    sc += 1
+        return sc
     par_cases = [c for c in cases if any(h['par'] for h in c['hist'])]
     seq_cases = [c for c in cases if not any(h['par'] for h in c['hist'])]
+    seq_cases.sort(key=score, reverse=True)
     chosen = seq_cases[:limit] + par_cases[:limit // 20]
     _W['classes'] = make_classes()
     _W['ref'] = ref
